@@ -116,18 +116,28 @@ def templated_dicts(draw):
 
 @st.composite
 def cases(draw):
+    o = draw(templated_dicts())
     g = specgen._G(draw, specgen.profile(domain_rate=0.0, max_defs=1))
     kind = draw(st.sampled_from(["tmpl", "tmpl", "opt", "opt_default_tmpl", "section"]))
     if kind == "tmpl":
         # parameters read the caller's options directly (Options, possibly defaulted or chained), so
         # that "keys the substitution reads" is about the caller's dictionary
         s = g.tmpl_text(params=True)
+        text_refs = [r for r in find_refs(s) if not r.startswith(":") and r in U.REF_ORDER]
+
         def param():
             p = g.opt(hashable=True) if draw(st.booleans()) else {"k": "opt", "key": draw(st.sampled_from(U.FLAT + ["S.X"]))}
+            if text_refs and draw(st.integers(0, 2)) == 0:
+                # the parameter reads a key the text references too (possibly under pinned options)
+                p = {"k": "opt", "key": draw(st.sampled_from(text_refs))}
             if draw(st.integers(0, 2)) == 0:
                 # a parameter evaluated under pinned options: what it reads there is not a read of the caller's dictionary
-                p = {"k": "with", "body": p, "opts": U.nest({draw(st.sampled_from(U.REF_ORDER[:-1])): draw(st.sampled_from(["pinned", 1, None]))}),
-                     "force": draw(st.booleans())}
+                pin = draw(st.sampled_from(U.REF_ORDER[:-1]))
+                v = U.dotted_get(o, p["key"])
+                inner = [r for sv in _strings(v) for r in find_refs(sv)] if v is not U.ABSENT else []
+                if inner and draw(st.integers(0, 3)) > 0:
+                    pin = draw(st.sampled_from(inner))   # pin exactly what the parameter's own value references
+                p = {"k": "with", "body": p, "opts": U.nest({pin: draw(st.sampled_from(["pinned", 1, None]))}), "force": draw(st.booleans())}
             return p
         node = {"k": "tmpl", "s": s, "params": {nm: param() for nm in ("p0", "p1") if "{:%s:}" % nm in s}}
     elif kind == "opt":
@@ -138,7 +148,7 @@ def cases(draw):
         node = {"k": "opt", "key": draw(st.sampled_from(U.FLAT)), "default": {"t": draw(st.sampled_from(["tmpl", "const"])), "s": g.tmpl_text(False)}}
         if node["default"]["t"] == "const":
             node["default"] = {"t": "const", "v": node["default"]["s"]}
-    return {"node": node, "defs": g.defs, "options": draw(templated_dicts())}
+    return {"node": node, "defs": g.defs, "options": o}
 
 
 PARTS = [
